@@ -628,6 +628,79 @@ pub fn scenarios(t: &Tables, seeds: &[String], seed: u64, n_small: usize, n_mate
         out.push(json!({"tag": "fam", "cmd": format!("position fen {}", to_fen(&b, 0, 1))}));
         count += 1;
     }
+    // under-promotion matters: queening stalemates the opponent, or only the knight promotion gives check; emitted with the
+    // promoting side to move and one ply earlier (the defender's king still has to step to its square), so that the
+    // promotion choice is made inside the tree as well as at the root
+    count = 0;
+    tries = 0;
+    while count < n_fam / 3 && tries < 2000000 {
+        tries += 1;
+        let c = rng.gen_range(0..2u32);
+        let (pr, lr) = if c == 0 { (7u32, 8u32) } else { (2u32, 1u32) };
+        let f = rng.gen_range(1..=8u32);
+        let pw = 8 * (pr - 1) + f;
+        let front = 8 * (lr - 1) + f;
+        let ok = rng.gen_range(1..=64u32);
+        let dk = rng.gen_range(1..=64u32);
+        if ok == dk || ok == pw || dk == pw || ok == front || dk == front {
+            continue;
+        }
+        let mut pcs = vec![(pw, 1 + 6 * c), (ok, 6 + 6 * c), (dk, 6 + 6 * (1 - c))];
+        if rng.gen_bool(0.5) {
+            let sq = rng.gen_range(1..=64u32);
+            if [pw, ok, dk, front].contains(&sq) {
+                continue;
+            }
+            let kind = [1u32, 2, 3][rng.gen_range(0..3)];
+            if kind == 1 && (sq <= 8 || sq >= 57) {
+                continue;
+            }
+            pcs.push((sq, kind + 6 * (1 - c)));
+        }
+        let b = crate::misc::board_from(t, &pcs, c, 0, 0);
+        let other = if c == 0 { PieceColor::Black } else { PieceColor::White };
+        if is_check(&b, other) {
+            continue;
+        }
+        let ms = generate_moves(&b, MoveGenerationMode::AllMoves, &t.hasher);
+        let promo = |k: PieceKind| ms.iter().find(|m| m.last_move.map(|(a, z)| sq_of(a) == pw && sq_of(z) == front).unwrap_or(false)
+            && m.pawn_promotion.map(|p| p.kind == k).unwrap_or(false));
+        let (q, n) = (promo(PieceKind::Queen), promo(PieceKind::Knight));
+        let cond1 = q.map(|q| !is_check(q, q.to_move) && generate_moves(q, MoveGenerationMode::AllMoves, &t.hasher).is_empty()).unwrap_or(false);
+        let cond2 = match (q, n) {
+            (Some(q), Some(n)) => is_check(n, n.to_move) && !is_check(q, q.to_move),
+            _ => false,
+        };
+        // alternate the two motives (stalemate after queening is the rarer one)
+        if !(if count % 2 == 0 { cond1 } else { cond1 || cond2 }) {
+            continue;
+        }
+        out.push(json!({"tag": "fam", "cmd": format!("position fen {}", to_fen(&b, 0, 1))}));
+        count += 1;
+        // one ply earlier: the defender's king steps onto dk
+        for d in [1i32, -1, 8, -8, 7, -7, 9, -9] {
+            let from = dk as i32 + d;
+            if !(1..=64).contains(&from) || ((from - 1) % 8 - (dk as i32 - 1) % 8).abs() > 1 {
+                continue;
+            }
+            let from = from as u32;
+            if pcs.iter().any(|(s, _)| *s == from) {
+                continue;
+            }
+            let mut p2: Vec<(u32, u32)> = pcs.iter().filter(|(s, _)| *s != dk).cloned().collect();
+            p2.push((from, 6 + 6 * (1 - c)));
+            let b2 = crate::misc::board_from(t, &p2, 1 - c, 0, 0);
+            let mover = if c == 0 { PieceColor::White } else { PieceColor::Black };
+            if is_check(&b2, mover) {
+                continue;
+            }
+            let m2 = generate_moves(&b2, MoveGenerationMode::AllMoves, &t.hasher);
+            if m2.iter().any(|m| m.board == b.board) {
+                out.push(json!({"tag": "fam", "cmd": format!("position fen {}", to_fen(&b2, 0, 1))}));
+                break;
+            }
+        }
+    }
     // third repetition on offer
     count = 0;
     tries = 0;
